@@ -1,0 +1,13 @@
+//go:build verif
+
+package dawn
+
+// VerifPoint, if non-nil, is called at named points between persistent effects of a build when
+// dawn is built with the "verif" tag. It is process-global: install it before loading a project.
+var VerifPoint func(name, label string)
+
+func verifPoint(name, label string) {
+	if f := VerifPoint; f != nil {
+		f(name, label)
+	}
+}
